@@ -129,15 +129,6 @@ func init() {
 	externals["time.runtimeNano"] = func(fr *frame, args []value) value { return int64(0) }
 	externals["time.Now"] = ext_time_Now
 
-	externals["crypto/sha256.Sum256"] = func(fr *frame, args []value) value {
-		h := sha256.Sum256(valueToBytes(args[0]))
-		a := make(array, 32)
-		for k := range h {
-			a[k] = h[k]
-		}
-		return a
-	}
-
 	// internal/bytealg
 	externals["internal/bytealg.Compare"] = func(fr *frame, args []value) value {
 		return fr.i.bytesCompare(args[0], args[1])
@@ -326,6 +317,15 @@ func init() {
 	registerErrors()
 }
 
+func sha256Native(b []byte) array {
+	h := sha256.Sum256(b)
+	a := make(array, 32)
+	for k := range h {
+		a[k] = h[k]
+	}
+	return a
+}
+
 func argStr(v value) string {
 	s, ok := v.(string)
 	if !ok {
@@ -350,11 +350,19 @@ func (i *interpreter) bytesEqual(a, b value) value {
 	tc := i.tc
 	r := tc.True()
 	for k := range x {
-		if isSymOrStr(x[k]) || isSymOrStr(y[k]) {
-			r = tc.And(r, tc.Eq(tc.intTerm(x[k]), tc.intTerm(y[k])))
-		} else if !bytesElemEqual(x[k], y[k]) {
+		_, ax := x[k].(byte)
+		_, ay := y[k].(byte)
+		if ax && ay {
+			if x[k] != y[k] {
+				return false
+			}
+			continue
+		}
+		e := i.valueEqualTerm(x[k], y[k])
+		if e.IsFalse() {
 			return false
 		}
+		r = tc.And(r, e)
 	}
 	return tc.mkBool(r)
 }
@@ -402,7 +410,38 @@ func (i *interpreter) bytesCompare(a, b value) value {
 		xb, ok1 := x[k].(byte)
 		yb, ok2 := y[k].(byte)
 		if !ok1 || !ok2 {
-			panic(unsupported(fmt.Sprintf("bytes.Compare on %T/%T elements", x[k], y[k])))
+			// abstract elements: arbitrary but consistent order (class, id, pos); equal
+			// opaque runs are decided symbolically
+			if ox, isO := x[k].(opaqueRun); isO {
+				if oy, isO2 := y[k].(opaqueRun); isO2 && ox.kind == oy.kind && ox.t != oy.t {
+					if i.decide(i.tc.Eq(ox.t, oy.t), "bytes.Compare opaque") {
+						continue
+					}
+				}
+			}
+			c1, a1, b1 := absRank(x[k])
+			c2, a2, b2 := absRank(y[k])
+			if c1 == 3 || c2 == 3 || c1 == 4 || c2 == 4 {
+				panic(unsupported(fmt.Sprintf("bytes.Compare on %T/%T elements", x[k], y[k])))
+			}
+			switch {
+			case c1 != c2:
+				if c1 < c2 {
+					return -1
+				}
+				return 1
+			case a1 != a2:
+				if a1 < a2 {
+					return -1
+				}
+				return 1
+			case b1 != b2:
+				if b1 < b2 {
+					return -1
+				}
+				return 1
+			}
+			continue
 		}
 		if xb < yb {
 			return -1
